@@ -138,8 +138,10 @@ fn verif_keyset_encrypt_step() {
     let mut storage = [0u8; 4];
     let buffer = EncoderBuffer::new(&mut storage);
     let mut used_gen: Option<u16> = None;
-    let res = ks.encrypt_packet(buffer, |buffer, key, _phase| {
+    let mut announced: Option<KeyPhase> = None;
+    let res = ks.encrypt_packet(buffer, |buffer, key, phase| {
         used_gen = Some(key.generation);
+        announced = Some(phase);
         let (payload, rest) = buffer.split_off();
         Ok((ProtectedPayload::new(0, payload), EncoderBuffer::new(rest)))
     });
@@ -154,6 +156,10 @@ fn verif_keyset_encrypt_step() {
             // exactly one counter advanced by one: the one of the key that was handed out
             assert!((after0 == before0 + 1 && after1 == before1) || (after1 == before1 + 1 && after0 == before0));
             assert!(used_gen == Some(send_gen0));
+            // the Key Phase bit written into the header names the key that protected the packet
+            // (RFC 9001 6: the peer selects its key by that bit)
+            let slot = announced.unwrap();
+            assert!(Some(ks.crypto[slot].key_mut().generation) == used_gen);
             // the update is initiated before the limit: inside the update window the NEXT key is used
             if active_needs_update && !pre.in_progress {
                 assert!(send_gen0 == pre.g + 1);
